@@ -50,9 +50,30 @@ class StoreInfo:
         return f'{self.ci.module}::{self.ci.name}'
 
 
+def _is_stub(fi: FuncInfo) -> bool:
+    """body is only a docstring / pass / `raise NotImplementedError`: an abstract hook, to be supplied by a subclass"""
+    body = [s_ for s_ in fi.node.body if not (isinstance(s_, ast.Expr) and isinstance(s_.value, ast.Constant))]
+    if not body:
+        return True
+    if len(body) == 1 and isinstance(body[0], ast.Pass):
+        return True
+    return len(body) == 1 and isinstance(body[0], ast.Raise) and 'NotImplementedError' in ast.unparse(body[0])
+
+
+STORE_PROTOCOL = ['reserve_put', 'reserve_get', 'put', 'get', 'reserve_put_cancel', 'reserve_get_cancel', '_trigger_reserve_put', '_trigger_reserve_get',
+                  '_do_reserve_put', '_do_reserve_get', '_do_put', '_do_get']
+
+
 def is_store_class(p: Project, ci: ClassInfo) -> bool:
     m = p.methods(ci.key)
-    return 'reserve_put' in m and 'reserve_get' in m and any('Store' in e for e in p.external_bases(ci.key))
+    if not ('reserve_put' in m and 'reserve_get' in m and any('Store' in e for e in p.external_bases(ci.key))):
+        return False
+    # An abstract base of the store family (template methods, hooks left to subclasses) is analysed through its concrete subclasses, with their
+    # overrides in place - never on its own.  Abstract = it has package-internal subclasses and part of the protocol is missing or a stub.
+    has_sub = any(ci.key in [b.key for b in p.mro(c.key)[1:]] for c in p.classes.values() if c.key != ci.key)
+    if has_sub and any(n not in m or _is_stub(m[n]) for n in STORE_PROTOCOL):
+        return False
+    return True
 
 
 def list_literal_inits(p: Project, key: ClassKey) -> Set[str]:
